@@ -403,6 +403,28 @@ func run(c Case, r *pbt.R) {
 			if r.Failed() {
 				return
 			}
+			// nobody but the harness (through Set) changes a stored session: the stores keep the slices the
+			// library gave them, as an application's map would
+			for name, st := range map[string]*scen.MemStore{"client": cs, "server": ss} {
+				if tm := st.Tampered(); len(tm) > 0 {
+					r.Failf("C14|stored-session-changed-in-place|"+name, "after action %d (%s) the %s store holds other bytes than were stored: %v", i, a.Kind, name, tm)
+
+					return
+				}
+			}
+		}
+		// ... and closing every connection of the history must not change them either
+		for _, p := range open {
+			p.Close()
+		}
+		open = nil
+		scen.Settle()
+		for name, st := range map[string]*scen.MemStore{"client": cs, "server": ss} {
+			if tm := st.Tampered(); len(tm) > 0 {
+				r.Failf("C14|stored-session-changed-in-place|"+name, "after all connections were closed the %s store holds other bytes than were stored: %v", name, tm)
+
+				return
+			}
 		}
 		if os.Getenv("VERIF_DEBUG") != "" {
 			fmt.Println(strings.Join(env.Log.Lines, "\n"))
